@@ -36,13 +36,14 @@ func (m matcher[T]) Matches(n *nd[T]) bool { return n.id%m.mod == m.rem }
 
 // tree is the implementation-side state of one history.
 type tree[T xmath.Numeric] struct {
-	q     quadtree.QuadTree[T, *nd[T]]
-	objs  map[int]*nd[T]
-	parse func(string) T
+	q      quadtree.QuadTree[T, *nd[T]]
+	objs   map[int]*nd[T]
+	stored map[int]int // how many entries of the object the tree owes by the specification (not asked from the library)
+	parse  func(string) T
 }
 
 func newTree[T xmath.Numeric](threshold int, parse func(string) T) *tree[T] {
-	t := &tree[T]{objs: map[int]*nd[T]{}, parse: parse}
+	t := &tree[T]{objs: map[int]*nd[T]{}, stored: map[int]int{}, parse: parse}
 	t.q.Threshold = threshold
 	return t
 }
@@ -169,11 +170,16 @@ func (t *tree[T]) oddProbe(mode string, id int, p geom.Point[T], r geom.Rect[T])
 }
 
 // obj returns the object with that id (one object per id and history: re-inserting an id stores the same pointer
-// twice); the rectangle on the line must be the one the object was created with.
+// twice).  While at least one entry of the object is stored the rectangle on the line must be the one it was stored
+// with (the package's contract); an object that is not stored takes the rectangle of the line — the SAME pointer now
+// answers other Bounds(), as a moved widget would.
 func (t *tree[T]) obj(id int, r geom.Rect[T]) *nd[T] {
 	if o, ok := t.objs[id]; ok {
 		if o.r != r {
-			panic("harness: bounds of a stored object must not change")
+			if t.stored[id] > 0 {
+				return nil // outside the contract (only reached in histories cut down by the minimiser)
+			}
+			o.r = r
 		}
 		return o
 	}
@@ -186,16 +192,31 @@ func (t *tree[T]) run(f []string) string {
 	num := t.parse
 	switch {
 	case f[0] == "ins" && len(f) == 6:
-		t.q.Insert(t.obj(hx.Atoi(f[1]), geom.NewRect(num(f[2]), num(f[3]), num(f[4]), num(f[5]))))
+		o := t.obj(hx.Atoi(f[1]), geom.NewRect(num(f[2]), num(f[3]), num(f[4]), num(f[5])))
+		if o == nil {
+			return "contract"
+		}
+		if o.r.Width > 0 && o.r.Height > 0 {
+			t.stored[o.id]++
+		}
+		t.q.Insert(o)
 		return t.state()
 	case f[0] == "rm" && len(f) == 6:
-		t.q.Remove(t.obj(hx.Atoi(f[1]), geom.NewRect(num(f[2]), num(f[3]), num(f[4]), num(f[5]))))
+		o := t.obj(hx.Atoi(f[1]), geom.NewRect(num(f[2]), num(f[3]), num(f[4]), num(f[5])))
+		if o == nil {
+			return "contract"
+		}
+		if t.stored[o.id] > 0 {
+			t.stored[o.id]--
+		}
+		t.q.Remove(o)
 		return t.state()
 	case f[0] == "reorg" && len(f) == 1:
 		t.q.Reorganize()
 		return t.state()
 	case f[0] == "clear" && len(f) == 1:
 		t.q.Clear()
+		t.stored = map[int]int{}
 		return t.state()
 	case f[0] == "thr" && len(f) == 2:
 		t.q.Threshold = hx.Atoi(f[1])
@@ -299,10 +320,32 @@ type hist struct {
 	r     *hx.Rng
 	j     uint // coordinates are k / 2^j (j = 0 for int trees)
 	rects []grect
-	in    []int // ids currently inserted (with repetitions)
+	in    []int // ids currently inserted (with repetitions); a superset of what is stored
+	huge  int64
 	emit  func(string)
 	lines int
 }
+
+// rebound gives an object that is certainly not stored new bounds now and then (the package allows that: Bounds() must
+// stay the same only WHILE the node is stored) — the same pointer comes back with another rectangle.
+func (h *hist) rebound(id int) {
+	for _, x := range h.in {
+		if x == id {
+			return
+		}
+	}
+	if h.huge != 0 && h.r.Chance(1, 3) {
+		g := universe(h.r, 1, h.huge)[0]
+		if h.r.Bool() { // a small move: next to where it was, other size
+			o := h.rects[id]
+			g = grect{o[0] + int64(h.r.Range(-3, 3)), o[1] + int64(h.r.Range(-3, 3)), o[2] + int64(h.r.Range(0, 2)), o[3] + int64(h.r.Range(0, 2))}
+		}
+		h.rects[id] = g
+		statRebound++
+	}
+}
+
+var statRebound int
 
 func (h *hist) num(v int64) string { return gx.Dy(v, h.j) }
 
@@ -403,12 +446,14 @@ func (h *hist) mutation() {
 	switch {
 	case c < 62 || len(h.in) == 0:
 		id := r.Intn(len(h.rects))
+		h.rebound(id)
 		h.out("ins " + strconv.Itoa(id) + " " + h.rectWords(h.rects[id]))
 		h.in = append(h.in, id)
 	case c < 90:
 		var id int
 		if r.Chance(1, 8) {
 			id = r.Intn(len(h.rects)) // maybe absent
+			h.rebound(id)
 		} else {
 			k := r.Intn(len(h.in))
 			id = h.in[k]
@@ -696,6 +741,7 @@ func (a *qtArea) Gen(r *hx.Rng, n int, tier string, emit func(string)) {
 			steps = h.r.Range(100, 320)
 		}
 		h.rects = universe(h.r, nrect, huge)
+		h.huge = huge
 		h.out("reset " + kind + " " + strconv.Itoa(thr))
 		for s := 0; s < steps; s++ {
 			h.mutation()
